@@ -9,6 +9,9 @@ THEOREMS = ["Props.C04.c04_line", "Props.C04.c04_run_monotone", "Props.C04.c04_l
 
 
 def run(check, tier):
+    import tie_common
+
+    tie_common.run_pyops(check, tier)      # the translator's prelude against CPython (the heap-mode bridges are written against it)
     import interp_suite as S
 
     n = 2000 if tier == "quick" else 60000
